@@ -157,6 +157,7 @@ impl Profile {
             "C16" => {
                 f.max_steps = 40;
                 f.p_legacy_seed = 0.4;
+                f.p_migrate_run = 0.3;
             }
             "C17" => {
                 f.w = [14, 14, 9, 26, 8, 6, 14, 3, 3];
@@ -230,7 +231,7 @@ fn gen_fee_pair(r: &mut Rng, accounts: &[String]) -> (Value, Value) {
     if r.chance(0.12) {
         return (json!(""), json!(""));
     }
-    let rates = ["0", "0.01", "0.010", "0.02", "0.5", "1", "abc", "", "0.1.2", "-0.1", "1e-2", " 0.1"];
+    let rates = ["0", "0.01", "0.010", "0.02", "0.5", "1", "abc", "", "0.1.2", "-0.1", "1e-2", " 0.1", "0.01 ", "0.01\n", "0,01", "1/100", "0x1"];
     let addrs_bad = ["", "ab", "Bad-Addr", "with space"];
     let rate = if r.chance(0.07) {
         Value::Null
@@ -428,7 +429,15 @@ fn mutate_instantiate(m: &mut Value, r: &mut Rng, accounts: &[String]) {
             }
             5 => {
                 let p: u32 = m["price_precision"].as_str().and_then(|s| s.parse().ok()).unwrap_or(0).min(20);
-                let v = match r.below(6) {
+                let v = match r.below(9) {
+                    6 => {
+                        // increments beyond 64 bits: a multiple of 10^p, or just off one
+                        let unit = 10u128.pow(p.min(18));
+                        let k = ((1u128 << 64) / unit + 1 + r.below(1000) as u128) * unit;
+                        if r.chance(0.5) { k } else { k + 1 + r.below(9) as u128 }
+                    }
+                    7 => (1u128 << 64) + r.below(200) as u128,
+                    8 => u128::MAX - r.below(3) as u128,
                     0 => 0u128,
                     1 => 1,
                     2 => 10u128.pow(p),
@@ -659,7 +668,9 @@ pub fn run_one(seed: u64, run: u64, prof: &Profile, enabled: Enabled, want_sampl
         out.cov = sim.cov.clone();
         return out;
     }
-    if !sim.instantiated {
+    if !sim.instantiated || sim.cfg.increment > 10u128.pow(24) || sim.cfg.precision > 18 {
+        // refused configuration, or an (accepted) one with an astronomically large lot: the
+        // instantiate case has been judged; order traffic would only overflow the generator
         out.cov = sim.cov.clone();
         return out;
     }
@@ -948,7 +959,7 @@ fn decide(
                     4 => funds = vec![CoinS::new(size, &quote)],
                     5 => price = Px { units: px.units * 10 + 1, d: wg.precision + 1 }.render(),
                     6 => price = r.pick(&["0", "-1", "abc", "", "0.0", "-0.5", "1,5", "1e3"]).to_string(),
-                    7 => size += if inc > 1 { 1 + r.below(inc as u64 - 1) as u128 } else { 0 },
+                    7 => size += if inc > 1 { 1 + r.below((inc - 1).min(u64::MAX as u128) as u64) as u128 } else { 0 },
                     8 => size = 0,
                     9 => quote = "nope".into(),
                     10 => base = "nope".into(),
@@ -992,7 +1003,7 @@ fn decide(
                     4 => funds = vec![CoinS::new(total, &quote)],
                     5 => price = Px { units: px.units * 10 + 1, d: wg.precision + 1 }.render(),
                     6 => price = r.pick(&["0", "-1", "abc", "", "0.0", "-0.5", "1,5", "1e3"]).to_string(),
-                    7 => size += if inc > 1 { 1 + r.below(inc as u64 - 1) as u128 } else { 0 },
+                    7 => size += if inc > 1 { 1 + r.below((inc - 1).min(u64::MAX as u128) as u64) as u128 } else { 0 },
                     8 => size = 0,
                     9 => quote_size += 1,
                     10 => quote_size = quote_size.saturating_sub(1),
@@ -1224,7 +1235,7 @@ fn decide(
                     2 => id2 = random_id(r, view, closed),
                     3 => size = Some(rem + inc),
                     4 => size = Some(0),
-                    5 => size = Some(if inc > 1 { inc * r.range(0, (rem / inc) as u64) as u128 + 1 + r.below(inc as u64 - 1) as u128 } else { rem + 1 }),
+                    5 => size = Some(if inc > 1 { inc * r.range(0, (rem / inc) as u64) as u128 + 1 + r.below((inc - 1).min(u64::MAX as u128) as u64) as u128 } else { rem + 1 }),
                     _ => size = Some(rem),
                 }
             }
